@@ -78,7 +78,15 @@ HexBodies(w) == UNION { { Rep(15, n), <<1>> \o Rep(0, n - 1), Rep(0, n), <<7>> \
 Terms == { <<>>, <<13, 10>>, <<59>>, <<32>>, <<47>>, <<58>>, <<64>>, <<71>>, <<96>>, <<103>>, <<120>> }
 HexInputs(w) == { HexBytes(h, u) \o t : h \in HexBodies(w), u \in BOOLEAN, t \in Terms } \cup Terms
 
-Inputs == [k : {"consts"}, w : Widths]
+\* ---- hex WRITE side: alignment of the bufio buffer x an interfering call (see HexWrite.tla) ----
+\* n: canonical hex digits of a non-negative int (first digit <= 7 when all MH+1 digits are used)
+WriteBodies(w) == UNION { { [j \in 1..l |-> IF j = 1 THEN 7 ELSE 15], <<1>> \o Rep(0, l - 1),
+                            [j \in 1..l |-> ((j - 1) % 15) + 1] } : l \in 1..(MH(w) + 1) }
+\* m: the digits another writeHexInt formats while the first one is being flushed
+Interferers(w, l) == { Rep(5, 1), Rep(5, l), Rep(5, MH(w) + 1) }
+HexWInputs(w) == UNION { [k : {"hexw"}, w : {w}, n : {b}, m : Interferers(w, Len(b)), free : 0..(Len(b) + 1)] : b \in WriteBodies(w) }
+
+Inputs == UNION { HexWInputs(w) : w \in VecWidths } \cup [k : {"consts"}, w : Widths]
           \cup UNION { [k : {"dec"}, w : {w}, s : DecInputs(w)] : w \in VecWidths }
           \cup UNION { [k : {"hex"}, w : {w}, s : HexInputs(w)] : w \in VecWidths }
 
@@ -89,6 +97,8 @@ Vec(x) ==
     [] x.k = "dec" -> LET sy == DecSyms(x.s) r == RefParseUint(sy, M(x.w)) b == RefParseBuf(sy, M(x.w)) IN
                       [k |-> "dec", w |-> x.w, s |-> x.s, ok |-> r.ok, val |-> r.val,
                        bufok |-> b.ok, bufval |-> b.val, bufn |-> b.n, buferr |-> b.err]
+    \* expected: exactly the digits of n reach the underlying writer (HexWrite!WireExact)
+    [] x.k = "hexw" -> [k |-> "hexw", w |-> x.w, val |-> x.n, m |-> x.m, free |-> x.free]
     [] x.k = "hex" -> LET r == RefReadHex(HexSyms(x.s), MH(x.w)) IN
                       [k |-> "hex", w |-> x.w, s |-> x.s, ok |-> r.ok, val |-> r.val, n |-> r.n]
 
@@ -129,4 +139,8 @@ HexOK(s, w) == LET r == RefReadHex(HexSyms(s), MH(w)) IN
 RefInv == CASE inp.k = "consts" -> ConstsOK(inp.w)
             [] inp.k = "dec" -> DecOK(inp.s, inp.w)
             [] inp.k = "hex" -> HexOK(inp.s, inp.w)
+            \* a value writeHexInt can be given: canonical, at most MH+1 digits, below 2^(w-1)
+            [] inp.k = "hexw" -> /\ StripH(inp.n) = inp.n /\ Len(inp.n) <= MH(inp.w) + 1
+                                 /\ (Len(inp.n) = MH(inp.w) + 1 => inp.n[1] <= 7)
+                                 /\ \A j \in 1..Len(inp.n) : inp.n[j] \in 0..15
 =============================================================================
